@@ -139,7 +139,31 @@ def d1_limiter(facts, rep):
         rep.ob('D1', 'K4', fn, 'decrement_counter computes the new count and the carried-over decrement from the old count only', not bad,
                'my_count is read after it was overwritten in the same call: the carried-over decrement no longer excludes the part '
                'that was applied to my_count, later puts are admitted beyond the threshold')
-    rep.floor('D1', 21, 'limiter')
+    # Whenever my_count can go DOWN (a decrement, or the carried-over decrement applied after a successful put) a slot may
+    # have become free for a predecessor that was rejected meanwhile and now waits to be pulled: every path from such a write to
+    # the function exit re-evaluates the admission condition (check_conditions(), directly or through forward_task()).
+    # forward_task()'s success path does; its sibling in try_put_task_impl must too.
+    nd_ = 0
+    for fn in facts.find(r'^tbb::detail::d2::limiter_node::'):
+        if fn.kind in ('ctor', 'dtor') or fn.p.endswith('reset_node'):
+            continue
+        downs = []
+        for pos, sx, nd2 in fn.stmt_elems(('binop',)):
+            if nd2['op'] not in ('=', '-='):
+                continue
+            ln_ = fn.n(fn.strip(nd2['l']))
+            if ln_.get('k') == 'member' and ln_.get('n') == 'my_count' and (nd2['op'] == '-=' or fn.cv(nd2['r']) == 0):
+                downs.append((pos, nd2.get('ln')))
+        for pos, ln_ in downs:
+            nd_ += 1
+            ok, wit = every_path_passes(fn, pos, lambda p_, e_: is_call_to(fn, e_, shortnames=('check_conditions', 'forward_task')))
+            rep.ob('D1', 'K7', fn, 'after my_count went down (line %s) the admission condition is evaluated again' % ln_, ok,
+                   'a predecessor that was rejected while this put was in flight is never pulled although the limiter has room again: its '
+                   'message stays in the predecessor forever (the sibling success path of forward_task() re-checks): ' + wit,
+                   ln=ln_, key_extra='down%s' % ln_)
+    if nd_ < 3:
+        raise AnalysisBroken('limiter_node: only %d writes that lower my_count found' % nd_)
+    rep.floor('D1', 24, 'limiter')
 
 
 def d2_join(facts, rep):
